@@ -104,13 +104,13 @@ type expect struct {
 }
 
 func TestChain(t *testing.T) {
-	hx.Check(t, hx.N{Quick: 24000, Thorough: 400000}, func(t *rapid.T, c *hx.Case) {
+	hx.Check(t, hx.N{Quick: 36000, Thorough: 400000}, func(t *rapid.T, c *hx.Case) {
 		hx.Reset(hx.Epoch)
-		// the EntryContext pool is shared by all chains of the process: empty it (two collections also drop the
-		// victim cache) so that a case is a function of its own draws only and a failure shrinks and replays
-		runtime.GC()
-		runtime.GC()
+		// the EntryContext pool is shared by all chains of the process: take out whatever earlier cases left there so that a case is a function of its own draws only and a failure shrinks and replays
 		sc := base.NewSlotChain()
+		for i := 0; i < 64; i++ {
+			sc.GetPooledContext()
+		}
 		var slots []*slot
 		slotIdx = map[string]int{}
 		n := rapid.IntRange(0, 12).Draw(t, "n")
